@@ -6,7 +6,7 @@
    the abstract cards and the periodic table. *)
 From Coq Require Import List NArith ZArith Bool String Ascii Reals PrimFloat.
 From T4V Require Import Base.Str Base.Scalar C10.Model C10.ProofsStr C10.Spec C10.ProofsHead
-  C10.ProofsCard C10.ProofsNum C10.ProofsDeck C10.ProofsPipe C10.LinkC09 C10.LinkC14 C10.LinkC09b C10.LinkC09c C10.ProofsTotal.
+  C10.ProofsCard C10.ProofsNum C10.ProofsDeck C10.ProofsPipe C10.LinkC09 C10.LinkC14 C10.LinkC09b C10.LinkC09c C10.ProofsTotal C10.ProofsRead.
 From T4V Require C09.Model C09.Spec C09.ProofsNorm C14.Model C14.ProofsContent C14.ProofsCards.
 Import ListNotations.
 Open Scope string_scope.
@@ -757,3 +757,38 @@ Proof.
     repeat (eapply Forall2_cons; [vm_compute; reflexivity|]). apply Forall2_nil.
   - vm_compute. reflexivity.
 Qed.
+
+(* ------------------------------------------------------------------------ *)
+(* round 5: the text read back                                               *)
+(* ------------------------------------------------------------------------ *)
+
+(* reading the body of the section back — a line that opens a block takes the
+   lines that follow it up to the next such line — gives exactly, block by
+   block and in order, the header of each block with its nuclide lines, then
+   m0 with HE4: every nuclide line belongs to the block it was written for *)
+Theorem C10_text_read_back : forall (T : Type) rend (d : list (N * list (block (T:=T)))),
+  exists body,
+    composition_lines_of rend d =
+      (["" ; "COMPOSITION"; dec (N.of_nat (List.length (all_blocks d)) + 1)]
+       ++ body ++ [""; "END_COMPOSITION"])%list /\
+    group_lines body =
+      ([], (map (fun b => (header_line rend b, item_lines (body_items rend b))) (all_blocks d)
+            ++ [("POINT_WISE 300 m0 1", ["  HE4 1E-30"])])%list).
+Proof. intros T rend. exact (text_read_back rend). Qed.
+Print Assumptions C10_text_read_back.
+
+(* so the lines determine the blocks: equal texts have, block by block, the
+   same headers (type, name, density, NB_ATOM, count) and the same nuclide lines *)
+Theorem C10_lines_determine_blocks : forall (T : Type) rend (d d' : list (N * list (block (T:=T)))),
+  composition_lines_of rend d = composition_lines_of rend d' ->
+  map (fun b => (header_line rend b, item_lines (body_items rend b))) (all_blocks d) =
+  map (fun b => (header_line rend b, item_lines (body_items rend b))) (all_blocks d').
+Proof. intros T rend. exact (lines_determine_blocks rend). Qed.
+Print Assumptions C10_lines_determine_blocks.
+
+Example C10_group_lines_example :
+  group_lines ["DENSITY 300 m5_-1.0 1.0  2"; "  H1 0.11"; "  O16 0.89"; "POINT_WISE 300 m5_0.1 0"; "  ";
+               "POINT_WISE 300 m0 1"; "  HE4 1E-30"] =
+  ([], [("DENSITY 300 m5_-1.0 1.0  2", ["  H1 0.11"; "  O16 0.89"]); ("POINT_WISE 300 m5_0.1 0", ["  "]);
+        ("POINT_WISE 300 m0 1", ["  HE4 1E-30"])]).
+Proof. reflexivity. Qed.
